@@ -111,6 +111,13 @@ Definition alive_check (l o : list Z) : bool :=
   | _, _ => false
   end.
 
+(* "... so failsafe still applies": when the session was armed (the session model, proved to satisfy C03, ends
+   the stream with the failsafe stop-all), the last command observed is that stop-all *)
+Definition ends_with_stop_all (o : list Z) : bool :=
+  match rev o with 0 :: 1 :: 32 :: _ => true | _ => false end.
+Definition c05_check (l o : list Z) : bool :=
+  alive_check l o && implb (ends_with_stop_all (sess_run l)) (ends_with_stop_all o).
+
 Definition c04_nontriv (l o : list Z) : bool :=
   match scase_of l with
   | Some (KScript s) => script_wf s && match flat_map frame_cmd (sc_frames s) with [] => false | _ => true end
